@@ -3,6 +3,7 @@ package main
 import (
 	"fmt"
 	"go/types"
+	"os"
 	"strings"
 
 	"golang.org/x/tools/go/ssa"
@@ -26,6 +27,40 @@ func (c *Ctx) call(fr *Frame, st *State, x *ssa.Call) {
 		recv := c.val(fr, cc.Value)
 		key := ifaceKey(cc.Value.Type(), cc.Method.Name())
 		spec := c.DB.Funcs[key]
+		if spec == nil && (!strings.HasPrefix(pkgPathOfType(cc.Value.Type()), modPath) || strings.HasPrefix(key, "generic.Comp.")) {
+			// methods of foreign interfaces (reflect.Type): uninterpreted pure functions of receiver and arguments
+			c.note("methods of foreign interface " + typeShort(cc.Value.Type()) + " are uninterpreted pure functions")
+			var ts, ss []string
+			for _, a := range append([]Val{recv}, args...) {
+				if a.K == VLoc || a.K == VFunc {
+					continue
+				}
+				ts = append(ts, flat(a)...)
+				ss = append(ss, flatSorts(a)...)
+			}
+			res := cc.Signature().Results()
+			mk := func(t types.Type, n int) Val {
+				tmpl := c.zeroVal(t)
+				var out []string
+				for i, s := range flatSorts(tmpl) {
+					out = append(out, c.ufApp(fmt.Sprintf("ext$%s.%d.%d", smtName(key), n, i), ts, ss, s))
+				}
+				p := 0
+				return rebuild(tmpl, out, &p)
+			}
+			switch res.Len() {
+			case 0:
+			case 1:
+				setRes(mk(res.At(0).Type(), 0))
+			default:
+				v := Val{K: VTuple, Typ: res}
+				for i := 0; i < res.Len(); i++ {
+					v.F = append(v.F, mk(res.At(i).Type(), i))
+				}
+				setRes(v)
+			}
+			return
+		}
 		if spec == nil {
 			panic(unsupported("interface call without contract: " + key))
 		}
@@ -77,6 +112,13 @@ func (c *Ctx) valOrNil(fr *Frame, v ssa.Value) (r *Val) {
 	}()
 	x := c.val(fr, v)
 	return &x
+}
+
+func pkgPathOfType(t types.Type) string {
+	if n, ok := types.Unalias(t).(*types.Named); ok && n.Obj().Pkg() != nil {
+		return n.Obj().Pkg().Path()
+	}
+	return ""
 }
 
 func pkgOfType(t types.Type) string {
@@ -161,7 +203,7 @@ func (c *Ctx) doAppend(fr *Frame, st *State, s, t Val, styp types.Type) Val {
 		// fresh store: copy prefix (quantified), then write element
 		c.copyStructElems(st, et, sd, fresh, sl, not(fits))
 		c.storeStruct(st, et, c.elemRef(data, sl), ev)
-		if !c.isFreshRef(sd) {
+		if !c.isFreshRef(sd) && worldStore("F$"+typeKey(et)+"$", "(elem "+sd+" 0)") {
 			st.dirty = or(st.dirty, fits)
 		}
 	} else {
@@ -182,7 +224,7 @@ func (c *Ctx) doAppend(fr *Frame, st *State, s, t Val, styp types.Type) Val {
 			}
 			c.hset(st, hn, fmt.Sprintf("(store %s %s %s)", cur, data, na))
 		}
-		if !c.isFreshRef(sd) {
+		if !c.isFreshRef(sd) && worldStore(name, sd) {
 			st.dirty = or(st.dirty, fits)
 		}
 	}
@@ -224,7 +266,7 @@ func (c *Ctx) copyStructElems(st *State, et types.Type, src, dst, n, cond string
 
 // rootOf: expression recovering the element reference from a (possibly nested sub-object) reference r.
 func rootOf(wrap func(string) string, r string) string {
-	w := wrap("@")
+	w := wrap("q.hole")
 	// w looks like (sub$A$f (sub$B$g @)); invert from outside in
 	out := r
 	for strings.HasPrefix(w, "(") {
@@ -241,7 +283,9 @@ func (c *Ctx) doCopy(fr *Frame, st *State, dst, src Val, dt, stp types.Type) Val
 	n := c.define("copy.n", sortIdx, fmt.Sprintf("(ite (bvslt %s %s) %s %s)", dst.F[1].T, src.F[1].T, dst.F[1].T, src.F[1].T))
 	if classOf(et) == CStruct {
 		c.copyStructElems(st, et, src.F[0].T, dst.F[0].T, n, "true")
-		c.markDirty(st, dst.F[0].T)
+		if worldStore("F$"+typeKey(et)+"$", "(elem "+dst.F[0].T+" 0)") {
+			c.markDirty(st, dst.F[0].T)
+		}
 		return sc(n, types.Typ[types.Int])
 	}
 	name := elemHeap(et)
@@ -254,7 +298,9 @@ func (c *Ctx) doCopy(fr *Frame, st *State, dst, src Val, dt, stp types.Type) Val
 			sortIdx, arr, n, cur, src.F[0].T, cur, dst.F[0].T, arr), "")
 		c.hset(st, hn, fmt.Sprintf("(store %s %s %s)", cur, dst.F[0].T, arr))
 	}
-	c.markDirty(st, dst.F[0].T)
+	if worldStore(name, dst.F[0].T) {
+		c.markDirty(st, dst.F[0].T)
+	}
 	return sc(n, types.Typ[types.Int])
 }
 
@@ -273,6 +319,9 @@ func (c *Ctx) staticCall(fr *Frame, st *State, callee *ssa.Function, args []Val,
 	inRepo := pk != nil && strings.HasPrefix(pk.Path(), modPath) && !strings.HasSuffix(pk.Path(), "/stats")
 	if !inRepo {
 		return c.externalCall(fr, st, callee, args, x)
+	}
+	if v, ok := c.lockfastCallee(fr, st, callee, args); ok {
+		return v
 	}
 	spec := c.DB.Funcs[key]
 	if spec == nil && callee.Origin() != nil {
@@ -406,6 +455,9 @@ func (c *Ctx) callByContract(fr *Frame, st *State, spec *FuncSpec, key string, a
 	// panic exits of the callee
 	_, mayPanic := spec.Flags["may_panic"]
 	_, clean := spec.Flags["panic_clean"]
+	if _, pr := spec.Flags["panic_restores"]; pr {
+		clean = true // the callee proves (on_panic) that it restores what it changed before panicking
+	}
 	var pconds []string
 	for _, cl := range spec.Clauses {
 		if cl.Kind == "panics_if" || cl.Kind == "lockfast" {
@@ -415,7 +467,11 @@ func (c *Ctx) callByContract(fr *Frame, st *State, spec *FuncSpec, key string, a
 			if clean || cl.Kind == "lockfast" {
 				d = st.dirty
 			}
-			c.panics = append(c.panics, &PanicExit{reach: and(st.reach, pc), dirty: d, pos: c.P.pos(c.curPos), explicit: true, prefix: len(c.script), callee: key})
+			var pst *State
+			if clean || cl.Kind == "lockfast" {
+				pst = pre
+			}
+			c.panics = append(c.panics, &PanicExit{st: pst, reach: and(st.reach, pc), dirty: d, pos: c.P.pos(c.curPos), explicit: true, prefix: len(c.script), callee: key})
 		}
 	}
 	if mayPanic {
@@ -440,7 +496,20 @@ func (c *Ctx) callByContract(fr *Frame, st *State, spec *FuncSpec, key string, a
 	}
 	if modified {
 		if _, nd := spec.Flags["nodirty"]; !nd {
-			st.dirty = "true"
+			du := ""
+			for _, cl := range spec.Clauses {
+				if cl.Kind == "dirty_unless" {
+					du = c.evalBool(env, cl.E)
+				}
+			}
+			if du != "" {
+				st.dirty = c.define("dirty", "Bool", or(st.dirty, not(du)))
+			} else {
+				st.dirty = "true"
+				if os.Getenv("GOVC_DEBUG") != "" {
+					fmt.Fprintf(os.Stderr, "dirty: call %s at %s\n", key, c.P.pos(c.curPos))
+				}
+			}
 		}
 		nn := c.declare("now.c", "Int")
 		c.assume(fmt.Sprintf("(>= %s %s)", nn, st.now), "")
@@ -529,7 +598,7 @@ func (c *Ctx) havocTarget(env *Env, st *State, m Expr) bool {
 			v := c.declare("hv", hi.vsort)
 			c.hset(st, t.heap, fmt.Sprintf("(store %s %s %s)", cur, t.key, v))
 		}
-		if !hi.ghost {
+		if !hi.ghost && worldStore(t.heap, t.key) && !c.isFreshRef(t.key) {
 			real = true
 		}
 	}
